@@ -837,7 +837,17 @@ impl ListingTable {
             table_partition_cols: self.options.table_partition_cols.clone(),
             insert_op,
             keep_partition_by_columns,
-            file_extension: self.options().format.get_ext(),
+            // Name the files like COPY does (`.csv.gz`, `.json.zst`, ...) so that a table
+            // whose `file_extension` includes the compression suffix lists the files it
+            // has written
+            file_extension: match self.options().format.compression_type() {
+                Some(compression_type) => self
+                    .options()
+                    .format
+                    .get_ext_with_compression(&compression_type)
+                    .unwrap_or_else(|_| self.options().format.get_ext()),
+                None => self.options().format.get_ext(),
+            },
             file_output_mode: FileOutputMode::Automatic,
         };
 
